@@ -142,6 +142,9 @@ func runC09(c *fw.Check) {
 	if !c.Quick() {
 		maxW, hexLen = 16, 16
 	}
+	if c.Deep() {
+		maxW, hexLen = 20, 18
+	}
 	c.Rule = fmt.Sprintf("EXHAUSTIVE for widths 1..%d: every value in [-2^(w-1), 2^w-1] in every accepted spelling (signed decimal, u0x/s0x upper/lower/leading zeros, true/false) against big-integer arithmetic, and Ident()->NewIntFromString identity; STRUCTURED for widths 17..64,65,127,128,129,1024,1025: 0,+-1,+-2^k,2^k+-1,min,max and ALL hex strings of length <=%d over every 1- and 2-digit alphabet (the printer's hex/decimal choice depends only on digit multisets); the same literals through asm.ParseString (batched globals) and the printed module through llvm-as|llvm-dis against a reference text. PLUS print / edit-the-big-integer-in-place / print histories for all ordered value pairs of widths 1..5 and boundary pairs of 8 wider widths x 6 editing operations. Widths are visited in one process, so a literal text met at one width is met again at others (history). distinct = distinct (width,value,spelling) triples.", maxW, hexLen)
 	// Part A: exhaustive small widths.
 	type job struct {
